@@ -2,6 +2,7 @@ INIT Init
 NEXT Next
 INVARIANT Laws
 INVARIANT Once
+INVARIANT TopLaw
 CHECK_DEADLOCK FALSE
 CONSTANTS
   Families = {"q_nest", "q_pairs", "q_leaves", "q_coal1", "q_coal2", "q_calls", "q_modes", "q_ref"}
